@@ -136,6 +136,9 @@ def gen_plan(rng, tier, idx, opts):
             bad = [1.0] * K
             bad[rng.randrange(K)] = rng.choice([0.0, -1.0])
             ops.append({"op": "set_P_bad", "P": rng.choice([bad, bad, 0.0, -2.0, [1.0] * (K + 1)])})
+        elif r < 0.765 and kind != "closed":
+            ops.append({"op": "solve_bad", "P": gen_P(rng, K, extreme)})
+            first = True
         elif r < 0.78:
             ops.append({"op": "clear"})
             first = True
@@ -483,6 +486,51 @@ def execute(plan):
                     ch.noise_var = op["v"]
                     cur["noise"] = op["v"]
                     m["cost_ok"] = False
+                elif o == "solve_bad":
+                    # a solve that is refused LATE (more streams than antennas): whatever the solver keeps afterwards, its
+                    # power-scaled precoders must belong to the power it reports; then the caller clears the solver
+                    pnew = py_P(op["P"])
+                    oldP = np.array(m["P"])
+                    refused = False
+                    try:
+                        solver.solve(np.array([max(Nr[k_], Nt[k_]) + 1 for k_ in range(K)]), pnew)
+                    except Exception:       # noqa: BLE001  (which exception is the library's business)
+                        refused = True
+                        bump(res["faults"], "rejected-setter")
+                    if refused and getattr(solver, "_F", None) is not None:
+                        Pn = np.array(solver.P, dtype=float)
+                        set_model_P(op["P"])
+                        if np.shape(Pn) != (K,) or not (np.allclose(Pn, oldP, rtol=1e-12, atol=0) or np.allclose(Pn, m["P"], rtol=1e-12, atol=0)):
+                            viol("power", step, "after a refused solve solver.P is %s: neither the old power %s nor the one passed %s" % (Pn, oldP, m["P"]), rel="P")
+                            break
+                        try:
+                            fF_ = solver.full_F
+                            usable = fF_ is not None and len(fF_) == K and all(isinstance(x, np.ndarray) and x.ndim == 2 and x.dtype != object for x in fF_)
+                        except Exception:   # noqa: BLE001
+                            usable = False
+                        if not usable:
+                            bump(res["probes"], "refused_solve_left_no_usable_precoders")
+                        for k_ in range(K if usable else 0):
+                            pw_ = np.linalg.norm(fF_[k_], "fro") ** 2
+                            if pw_ > Pn[k_] * (1 + 1e-6) + 1e-12:
+                                viol("power", step, "after a refused solve |full_F[%d]|^2 = %.9g exceeds the power the solver reports, %.9g" % (k_, pw_, Pn[k_]), rel="exceeds_after_refused_solve")
+                                break
+                        if res["status"] != "ok":
+                            break
+                    solver.clear()
+                    cur["Ns"] = list(Ns)
+                    set_model_P(None)
+                    m["F_def"] = m["W_def"] = False
+                    m["aligned"] = False
+                    m["last_setter"] = "clear"
+                    m["cost_ok"] = False
+                    m["F_from_solve"] = False
+                    m["handed_P"] = None
+                    if kind != "closed":
+                        solver.max_iterations = plan["max_iterations"]
+                        solver.initialize_with = plan["init"]
+                    log.add(o, refused)
+                    continue
                 elif o == "clear":
                     solver.clear()
                     cur["Ns"] = list(Ns)
